@@ -7,7 +7,7 @@
 (*   WritesOnlyToOwnGlobals, PointerRestoredOnEveryExit, OneInstancePerModule                  *)
 (* with Flags = {} ; with each mutant flag the corresponding invariant must be violated        *)
 (* (witness that the invariants are not vacuous).                                              *)
-EXTENDS ContextsCore
+EXTENDS ContextsCore, Json
 
 CONSTANTS Flags,        \* deviations built into the machine ({} = the statement)
           OpsA,         \* number of free statements in file a (1..2)
@@ -83,4 +83,10 @@ W_NoCrossCall  == ~(Len(S.stack) >= 2 /\ Top(S).kind = "call" /\ Top(S).own # S.
 W_NoCaught     == ~(\E i \in 1..Len(S.log) : S.log[i].v = Data("caught"))
 W_NoSharedSeen == ~(\E i \in 1..Len(S.log) : S.log[i].tag = "r.mx" /\ S.log[i].v = Data("a1") /\ S.ptr = "file.b")
 W_NoTask       == ~(S.stack # <<>> /\ Top(S).kind = "call" /\ Len(S.stack) = 1 /\ Top(S).src = "file.b" /\ \E i \in 1..Len(S.log) : S.log[i].tag = "w.x")
+\* all witnesses in one run (workers = 1): registers set by the invariant WitTrack, printed by the post-condition
+WitNames == << "W_NoCrossCall", "W_NoCaught", "W_NoSharedSeen", "W_NoTask" >>
+WitVal(k) == CASE k = 1 -> ~W_NoCrossCall [] k = 2 -> ~W_NoCaught [] k = 3 -> ~W_NoSharedSeen [] k = 4 -> ~W_NoTask
+ASSUME \A k \in 1..Len(WitNames) : TLCSet(k, FALSE)
+WitTrack  == \A k \in 1..Len(WitNames) : WitVal(k) => TLCSet(k, TRUE)
+WitReport == PrintT("INFO " \o ToJson([seen |-> { WitNames[k] : k \in { j \in 1..Len(WitNames) : TLCGet(j) } }]))
 =============================================================================
